@@ -144,3 +144,20 @@ package cluster
 //@ func (simpleBroadcast).Message
 //@   props C19
 //@   ensures [the-bytes-it-was-made-from] len(result) == len(b) && (forall i int :: 0 <= i && i < len(b) ==> result[i] == b[i])
+
+// ---- C19: the receive side of the TLS transport's framing (length prefix, then the message). Whatever length the
+// prefix announces is the length that is read - there is no size above which a frame is refused, so an update of any
+// size that a peer frames is taken in - and every error has a cause in the connection or in the bytes read: a missing
+// connection, a failed read, an undecodable message, a foreign version or an unknown kind.
+//@ func (*tlsConn).read
+//@   props C19
+//@   nosafe
+//@   requires conn != nil
+//@   at call io.ReadFull assert [the-announced-length-is-what-is-read] called("Uint32") ==> len(arg1) == ret("Uint32")
+//@   at call fmt.Errorf assert [a-refusal-has-a-cause-in-the-bytes-read] (called("io.ReadFull") && ret1("io.ReadFull") != nil) || (called("proto.Unmarshal") && ret("proto.Unmarshal") != nil)
+//@   at call errors.New assert [a-refusal-has-a-cause-in-the-message] conn.connection == nil || (called("proto.Unmarshal") && ret("proto.Unmarshal") == nil)
+//@   at call toPacket assert [only-a-packet-message-of-this-version] arg0.Version == version && arg0.Kind == clusterpb.MemberlistMessage_PACKET
+//@   ensures [a-decoded-packet-is-handed-on] called("toPacket") ==> result0 == ret("toPacket") && result1 == ret1("toPacket")
+//@   ensures [a-stream-announcement-yields-no-packet] result0 != nil ==> called("toPacket")
+//@   ensures [both-parts-of-the-frame-are-read] called("proto.Unmarshal") ==> count("io.ReadFull") == 2 && ret1("io.ReadFull") == nil
+//@   noeffect toPacket
